@@ -338,88 +338,6 @@ end leftRegular
 example : leftReg ℤ quatTable 8 (mulFin quatTable_isGroupTable 1 2) = leftReg ℤ quatTable 8 1 * leftReg ℤ quatTable 8 2 :=
   leftRegular_mul quatTable_isGroupTable 1 2
 
-/-! ## 6c. the algebra around `reduce_group_representation`
-
-The eigen-reduction itself is numerical (contract only, probed).  What follows from its contracts is proved here for any
-group table and any matrices satisfying them: characters of a representation are class functions; the matrix
-`F[(i,a,b), g] = c_i ρ_i(g)[a,b]` intertwines the left regular representation with `⊕_i ρ_i ⊗ 1_{d_i}` (only the
-homomorphism law is used); and if `F` is unitary on both sides — the two residuals the probe measures — then
-`Σ d_i² = |G|`. -/
-
-section irreps
-open Matrix
-variable {R : Type*} [CommRing R] {T : Table} {N : Nat}
-
-/-- a matrix representation of the group given by the table: `ρ(g·k) = ρ(g) ρ(k)` -/
-def IsRep (h : IsGroupTable T N) {d : Type*} [Fintype d] [DecidableEq d] (ρ : Fin N → Matrix d d R) : Prop :=
-  ∀ g k : Fin N, ρ (mulFin h g k) = ρ g * ρ k
-
-/-- **characters are class functions**: `χ(x g x⁻¹) = χ(g)` for every representation of the table's group
-(`y` is the inverse of `x`: `y·x = e`) -/
-theorem character_class_function (h : IsGroupTable T N) {d : Type*} [Fintype d] [DecidableEq d]
-    (ρ : Fin N → Matrix d d R) (hρ : IsRep h ρ) (e : Fin N) (he : ∀ i, i < N → entry T e.val i = i)
-    (g x y : Fin N) (hyx : mulFin h y x = e) :
-    trace (ρ (mulFin h (mulFin h x g) y)) = trace (ρ g) := by
-  have heg : mulFin h e g = g := Fin.ext (he g.val g.isLt)
-  rw [hρ, hρ, Matrix.trace_mul_cycle, ← hρ, hyx, ← hρ, heg]
-
-variable {ι : Type*} [Fintype ι] [DecidableEq ι] {d : ι → Type*} [∀ i, Fintype (d i)] [∀ i, DecidableEq (d i)]
-
-/-- the "Fourier" matrix built from a family of representations: row `(i,a,b)`, column `g`, entry `c_i · ρ_i(g)[a,b]` -/
-def fourier (c : ι → R) (ρ : ∀ i, Fin N → Matrix (d i) (d i) R) : Matrix (Σ i, d i × d i) (Fin N) R :=
-  fun x g => c x.1 * ρ x.1 g x.2.1 x.2.2
-
-/-- `⊕_i ρ_i(h) ⊗ 1_{d_i}`: every block repeated `d_i` times -/
-def blockRep (ρ : ∀ i, Fin N → Matrix (d i) (d i) R) (k : Fin N) : Matrix (Σ i, d i × d i) (Σ i, d i × d i) R :=
-  Matrix.blockDiagonal' fun i => Matrix.kroneckerMap (· * ·) (ρ i k) (1 : Matrix (d i) (d i) R)
-
-/-- **the Fourier matrix intertwines the left regular representation with `⊕ ρ_i ⊗ 1`** — from the homomorphism law
-alone: `F · L(k) = (⊕_i ρ_i(k) ⊗ 1_{d_i}) · F` for every `k` -/
-theorem fourier_intertwines (h : IsGroupTable T N) (c : ι → R) (ρ : ∀ i, Fin N → Matrix (d i) (d i) R)
-    (hρ : ∀ i, IsRep h (ρ i)) (k : Fin N) :
-    fourier c ρ * leftReg R T N k = blockRep ρ k * fourier c ρ := by
-  ext ⟨i, a, b⟩ g
-  rw [Matrix.mul_apply, Finset.sum_eq_single (mulFin h k g)]
-  · rw [leftReg_apply]
-    simp only [mulFin, if_true, mul_one]
-    rw [Matrix.mul_apply, Fintype.sum_sigma, Finset.sum_eq_single i]
-    · simp only [blockRep, Matrix.blockDiagonal'_apply_eq, fourier, Fintype.sum_prod_type, Matrix.kroneckerMap_apply,
-        Matrix.one_apply]
-      have := congrFun (congrFun (hρ i k g) a) b
-      simp only [mulFin] at this
-      rw [this, Matrix.mul_apply, Finset.mul_sum]
-      refine Finset.sum_congr rfl fun a' _ => ?_
-      rw [Finset.sum_eq_single b]
-      · simp; ring
-      · intro b' _ hb'; simp [Ne.symm hb']
-      · intro hb; exact absurd (Finset.mem_univ _) hb
-    · intro j _ hj
-      simp [blockRep, Matrix.blockDiagonal'_apply_ne _ _ _ (Ne.symm hj)]
-    · intro hi; exact absurd (Finset.mem_univ _) hi
-  · intro x _ hx
-    rw [leftReg_apply]
-    have : ¬ x.val = entry T k.val g.val := fun e => hx (Fin.ext e)
-    simp [this]
-  · intro hne; exact absurd (Finset.mem_univ _) hne
-
-/-- a rectangular matrix that is unitary on both sides is square (trace argument) -/
-theorem card_eq_of_unitary {K : Type*} [Fintype K] [DecidableEq K] (F : Matrix K (Fin N) ℂ)
-    (h1 : F * Fᴴ = 1) (h2 : Fᴴ * F = 1) : Fintype.card K = N := by
-  have e1 : trace (F * Fᴴ) = (Fintype.card K : ℂ) := by rw [h1, Matrix.trace_one]
-  have e2 : trace (Fᴴ * F) = (N : ℂ) := by rw [h2, Matrix.trace_one]; simp
-  rw [Matrix.trace_mul_comm, e2] at e1
-  exact_mod_cast e1.symm
-
-/-- **`Σ d_i² = |G|`** from the two measured hypotheses `F F† = 1` (Schur orthogonality of the blocks) and `F† F = 1`
-(completeness): together with `fourier_intertwines`, `F` is then a unitary equivalence between the left regular
-representation and the direct sum in which block `i` occurs `d_i` times; comparing traces at the identity gives the count. -/
-theorem sum_sq_dims_eq_order (F : Matrix (Σ i, d i × d i) (Fin N) ℂ)
-    (h1 : F * Fᴴ = 1) (h2 : Fᴴ * F = 1) : ∑ i, Fintype.card (d i) ^ 2 = N := by
-  rw [← card_eq_of_unitary F h1 h2, Fintype.card_sigma]
-  exact Finset.sum_congr rfl fun i _ => by rw [Fintype.card_prod, sq]
-
-end irreps
-
 /-! ## 6b. partitions: the recurrence of `get_sym_group_num_irrep` and the Young-diagram array, all `N` -/
 
 /-- **the rows of `z0[(n,m)]` are exactly the partitions of `n` into at most `m` parts**
@@ -549,6 +467,19 @@ diagram and the lower bounds handed down) — and hold for **every** shape accep
 (`NumqiProofs/YoungComb.lean`, `YoungTableaux.lean`, `YoungTabCore.lean`, `YoungTabFinal.lean`) follows the code's own recursion
 (first row, then the remaining rows on the remaining numbers). -/
 
+theorem checkShape_of_valid : ∀ {shape : List Nat}, ValidShape shape → checkShape shape = true
+  | [], h => absurd rfl h.1
+  | [a], h => by simpa [checkShape] using h.2.1 a (by simp)
+  | a :: b :: rest, h => by
+    have ih := checkShape_of_valid h.tail
+    simp only [checkShape, Bool.and_eq_true, decide_eq_true_eq]
+    exact ⟨(List.pairwise_cons.1 h.2.2).1 b (by simp), ih⟩
+
+theorem checkShape_of_mem_shapes (N : Nat) (hN : 1 ≤ N) (shape : List Nat) (hs : shape ∈ shapes N) : checkShape shape = true := by
+  obtain ⟨h1, h2, h3⟩ := (mem_shapes N hN shape).1 hs
+  refine checkShape_of_valid ⟨?_, h2, h1⟩
+  rintro rfl; simp at h3; omega
+
 /-- **soundness**: every array returned for `λ` is a standard filling of `λ` (in the form of the Boolean checker used
 for the finite tables, and as the `Prop`-level predicate on the unpadded rows) -/
 theorem tableaux_sound (shape : List Nat) (hc : checkShape shape = true) :
@@ -593,10 +524,15 @@ def hookLength_formula.Statement : Prop :=
 
 /-- proved fragment: the hook-length value is the number of standard tableaux for every partition of `N ≤ 8`
 (general count + the finite table of `tableaux_exact_le8`) -/
-theorem hookLength_formula_le8 (N : Nat) (h1 : 1 ≤ N) (h8 : N ≤ 8) (shape : List Nat) (hs : shape ∈ shapes N)
-    (hc : checkShape shape = true) : hookLength shape = Set.ncard {t | IsSYT shape t} := by
-  rw [← tableaux_count shape hc]
+theorem hookLength_formula_le8 (N : Nat) (h1 : 1 ≤ N) (h8 : N ≤ 8) (shape : List Nat) (hs : shape ∈ shapes N) :
+    hookLength shape = Set.ncard {t | IsSYT shape t} := by
+  rw [← tableaux_count shape (checkShape_of_mem_shapes N h1 shape hs)]
   exact (tableaux_exact_le8 N h1 h8 shape hs).1.symm
+
+/-- `get_hook_length` (prime-power bookkeeping `num // den`) is `N! / ∏ hooks` — for every partition of `N ≤ 10` (kernel evaluation) -/
+theorem hookLength_eq_factorial_div_le10 :
+    ∀ N, N ∈ List.range' 1 10 → ∀ shape ∈ shapes N, hookLength shape = shape.sum ! / (hooks shape).foldl (· * ·) 1 := by
+  decide +kernel
 
 /-- not vacuous: the three standard tableaux of (2,1) … as `IsSYT`, e.g. rows `[0,2],[1]` -/
 example : IsSYT [2, 1] [[0, 2], [1]] :=
